@@ -17,6 +17,14 @@ CLAIMED = {
   text="Lean 4 theorems: decode_encode / kvDecode_encode (the client's decoder and an independent KeyValue parser both recover exactly (row, family, qualifier, timestamp, type, value) and the bytes consumed, for all rows < 2^16, families < 2^8, any qualifier/value, all 64-bit timestamps, any trailing bytes), stream_roundtrip, encodings_agree (for every mutation kind, all four delete variants, timestamp set/unset, every map shape including nil/empty inner maps and EVERY iteration order of the Go maps, the cellblock form and the protobuf form denote the same multiset of cells; the panic in valuesToCellblocks is unreachable), count_eq_cells. Type codes and the length formula are regenerated from the source (Gen.Cell). Correspondence: real appendCellblock / cellFromCellBlock / valuesToCellblocks / valuesToProto vs the model and the independent decoder, exhaustive over boundary lengths and map shapes + seeded random.",
   note="Trusted: Lean kernel; tools/extract for Gen.Cell; the reading of the protobuf form as cells follows HBase's ProtobufUtil and is not checked against HBase; slices modelled with cap = len; allocation of wire-declared sizes not modelled.",
   tech="Lean 4 proof (round-trip laws, agreement of two encodings for all map orders) + differential correspondence with an independent decoder"),
+ "C07": dict(
+  text="Lean 4 theorems about a model of SendBatch / findClients / waitForCompletion as a function of the batch, a routing oracle, per-call per-round answer scripts, the Go map iteration order and the point at which the batch context is seen done — quantified over ALL of them: positional (slot i only ever holds call i's own answer, location error or context error), success_kept (a success received for call i is returned as <msg, nil> whatever happens to the others, later rounds and cancellation included), every_call_ends, allOK_iff (the flag is true exactly when every error is nil). Correspondence: the real SendBatch driven through scripted fake region clients, exhaustive outcome sequences for <= 3 calls x <= 3 rounds, every cancel point, own contexts, blocked re-location, invalid entries at every position, random larger batches; judged by the Lean spec first, then compared with the model.",
+  note="Trusted: Lean kernel; Gen.Backoff via tools/extract; the model is tied to rpc.go by the differential run only; re-establishment is played by the harness through wrapped RegionInfo objects.",
+  tech="Lean 4 proof (invariant over retry rounds of a functional model) + differential correspondence"),
+ "C12": dict(
+  text="Lean 4 theorems on the same SendBatch model plus multi.add / multi.toProto: invalid_rejected_unsent (mixed tables / duplicate / non-batchable at any position: nothing is queued, every slot has an error), round0_partition, per_region_order (inside every multi the actions of a region are the queued calls of that region in batch order, for any region order and dropped contexts), same_region_order across retries, only_retryable_resent, success_never_resent, ended_never_resent. Correspondence as C07, plus the per-region view of a real region.multi built from each queued slice and per-call execution counts.",
+  note="Trusted: as C07. At-least-once after a lost response is inherent and outside the property.",
+  tech="Lean 4 proof (sublist/order laws, only-retryable-resent) + differential correspondence"),
 }
 
 PENDING = "check not integrated yet (work in progress; see DESIGN.md build order)"
